@@ -272,9 +272,15 @@ func init() {
 			n = f.n
 		}
 		for i := 0; i < n; i++ {
+			if rep.outOfTime() {
+				break
+			}
 			c18Sequence(rep, m, r, dir, i)
 		}
 		for i := 0; i < 3+n/50; i++ {
+			if rep.outOfTime() {
+				break
+			}
 			c18Unmapped(rep, r)
 		}
 		rep.ModelCalls = m.N
